@@ -267,7 +267,7 @@ pub fn run() {
     // (c) single-token mutations: of the accepted sentences and of the repository's programs
     let mut muts: Vec<String> = vec![];
     let accepted_sentences: Vec<&String> = sentences.iter().filter(|s| matches!(mrasm::parse(s), Ok(_))).collect();
-    let step = if quick { 23 } else { 3 };
+    let step = if quick { 5 } else { 1 };
     for s in accepted_sentences.iter().step_by(step) {
         muts.extend(corpus::mutations(s, &corpus::MUT_VOCAB));
     }
@@ -277,10 +277,10 @@ pub fn run() {
     for (i, (_, src)) in repo.iter().enumerate() {
         rmuts.push(src.clone());
         let small = src.len() < 900;
-        if quick && !(small && i % 3 == (ctx.seed as usize) % 3) {
+        if quick && !small {
             continue;
         }
-        let vocab: &[&str] = if quick { &corpus::MUT_VOCAB[..12] } else { &corpus::MUT_VOCAB };
+        let vocab: &[&str] = if quick { &corpus::MUT_VOCAB[..16] } else { &corpus::MUT_VOCAB };
         rmuts.extend(corpus::mutations(src, vocab));
     }
     run_family("c:mutated-repository-programs", &rmuts, &mut fam, &mut bad, &mut classes);
